@@ -177,7 +177,7 @@ func (w *c17World) afterBroadcast() string {
 		return ""
 	}
 	if vigil.VerifCount(w.v) <= 0 {
-		deadline := time.After(400 * time.Millisecond)
+		deadline := time.After(1500 * time.Millisecond) // returns as soon as they are back
 		for _, x := range asleep {
 			select {
 			case <-x.done:
@@ -190,7 +190,7 @@ func (w *c17World) afterBroadcast() string {
 		return ""
 	}
 	for range asleep {
-		if !w.waitEvent("checked", 400*time.Millisecond) {
+		if !w.waitEvent("checked", 1500*time.Millisecond) {
 			w.timeout()
 			return " unwoken"
 		}
@@ -379,7 +379,7 @@ func runC17(in *bufio.Scanner, out *bufio.Writer) {
 			go func(v vigil.Vigil, cw *c17World) { defer cw.ceaseWG.Done(); v.CeaseVigil(); cw.ceaseFin.Add(1) }(w.v, w)
 			d := 3 * time.Second
 			if w.lockHeld() {
-				d = 60 * time.Millisecond // with the mutex around the decrement it cannot get there now
+				d = 150 * time.Millisecond // with the mutex around the decrement it cannot get there now
 			}
 			res := "held"
 			if w.waitEvent("dec", d) {
